@@ -23,13 +23,13 @@ Proof.
 Qed.
 
 (* writing a parsed message succeeds (no u16 overflow: the rewritten header is never longer than the original) *)
-Theorem C02_write_ok (m : msg) : parsed m -> exists bytes, msg_to_write m = Ok bytes.
+Theorem C02_write_ok (m : msg) : parsed m -> exists bytes, msg_to_write m = Ok (WOk bytes).
 Proof. intros H. eexists. apply write_is_enc. apply parsed_wf; exact H. Qed.
 
 (* reading the written bytes -- alone, or followed by fewer than 4 bytes, or by the next message's marker --
    consumes exactly the bytes written and returns the same fields, under any index j *)
 Theorem C02_parse_write_fields (m : msg) (bytes rest : bytes) (j : N) :
-  parsed m -> msg_to_write m = Ok bytes ->
+  parsed m -> msg_to_write m = Ok (WOk bytes) ->
   blen rest < 4 \/ is_storage_pat rest = true ->
   exists m', parse_storage j (bytes ++ rest) = PMsg (blen bytes) m' /\ same_fields m m' /\ m_index m' = j.
 Proof.
@@ -39,10 +39,10 @@ Qed.
 
 (* writing the re-read message reproduces the same bytes *)
 Theorem C02_write_normal_form (m m' : msg) (bytes rest : bytes) (j k : N) :
-  parsed m -> msg_to_write m = Ok bytes ->
+  parsed m -> msg_to_write m = Ok (WOk bytes) ->
   blen rest < 4 \/ is_storage_pat rest = true ->
   parse_storage j (bytes ++ rest) = PMsg k m' ->
-  msg_to_write m' = Ok bytes.
+  msg_to_write m' = Ok (WOk bytes).
 Proof.
   intros Hp Hw Hr Hparse. pose proof (parsed_wf m Hp) as Hwf.
   rewrite (parse_write m j bytes rest Hwf Hw Hr) in Hparse. inversion Hparse; subst k m'.
@@ -55,12 +55,12 @@ Qed.
 Theorem C02_export_roundtrip (start : N) (ms : list msg) :
   Forall parsed ms -> start + N.of_nat (length ms) <= u32max ->
   exists bytes ms' st,
-    write_all ms = Ok bytes /\
+    write_all ms = Ok (WOk bytes) /\
     run_iter start bytes = Ok (ms', st, []) /\
     Forall2 same_fields ms ms' /\
     map m_index ms' = map (fun k => start + N.of_nat k) (seq 0 (length ms)) /\
     i_skipped st = 0 /\ i_processed st = blen bytes /\
-    write_all ms' = Ok bytes.
+    write_all ms' = Ok (WOk bytes).
 Proof.
   intros Hp Hidx.
   assert (Hwf : Forall wf_msg ms) by (eapply Forall_impl; [|exact Hp]; exact parsed_wf).
@@ -89,9 +89,9 @@ Theorem C02_file_export_roundtrip (start : N) (data : bytes) ms st rest :
   start <= u32max ->
   wf_bytes data -> file_micros_ok data -> run_iter start data = Ok (ms, st, rest) ->
   exists bytes ms' st',
-    write_all ms = Ok bytes /\ run_iter start bytes = Ok (ms', st', []) /\ Forall2 same_fields ms ms' /\
+    write_all ms = Ok (WOk bytes) /\ run_iter start bytes = Ok (ms', st', []) /\ Forall2 same_fields ms ms' /\
     map m_index ms' = map m_index ms /\ i_skipped st' = 0 /\ i_processed st' = blen bytes /\
-    write_all ms' = Ok bytes.
+    write_all ms' = Ok (WOk bytes).
 Proof.
   intros Hst Hd Hm Hr.
   pose proof (C02_file_messages_parsed start data ms st rest Hd Hm Hr) as Hp.
@@ -124,8 +124,8 @@ Definition ex_bytes : bytes :=
 Example C02_nonvacuous :
   exists m bytes m',
     parse_storage 5 ex_bytes = PMsg 45 m /\ parsed m /\
-    msg_to_write m = Ok bytes /\ blen bytes = 37 /\
-    parse_storage 9 bytes = PMsg 37 m' /\ same_fields m m' /\ htyp (m_std m') = 51 /\ msg_to_write m' = Ok bytes.
+    msg_to_write m = Ok (WOk bytes) /\ blen bytes = 37 /\
+    parse_storage 9 bytes = PMsg 37 m' /\ same_fields m m' /\ htyp (m_std m') = 51 /\ msg_to_write m' = Ok (WOk bytes).
 Proof.
   destruct (parse_storage 5 ex_bytes) as [n m| |k] eqn:E; try (vm_compute in E; discriminate).
   assert (Hp : parsed m).
